@@ -64,6 +64,12 @@ def run(prop, tier, seed):
                 if prop.prop_file:
                     assum_text = record_assumptions(prop.prop_file)
                     closed, axioms = parse_assumptions(assum_text)
+                    # every theorem the evidence names is a statement of the property file
+                    src = open(os.path.join(COQ, prop.prop_file)).read()
+                    stated = set(re.findall(r"(?:Theorem|Lemma|Example|Corollary)\s+(\w+)", src))
+                    absent = [t for t in prop.theorems if t not in stated]
+                    if absent:
+                        raise Broken("property theorems named but not stated in %s: %s" % (prop.prop_file, ", ".join(absent)))
                 obligations = cone_stats["qed"]
                 discharged = cone_stats["qed"]
                 if tier == "thorough" and prop.prop_file:
